@@ -59,7 +59,9 @@ DT(d) ==
           \cup (IF d = 1 THEN {Fn(rt, p.ps, p.va) : <<rt, p>> \in FnRets \X Protos}
                 ELSE {Fn(rt, <<>>, FALSE) : rt \in {t \in new : t.k = "ptr"}}
                      \cup {Fn(B("int"), <<p>>, FALSE) : p \in {t \in new : t.k \in {"ptr", "arr"}}})
-Universe == DT(Depth)
+(* plus the const-qualified version of every object type of depth <= 1: pairs (T, const T) exercise the rules about   *)
+(* the types' OWN qualifiers (6.7.3p10; "all the qualifiers of the type pointed to by the right", 6.5.16.1p1)          *)
+Universe == DT(Depth) \cup {Qual(t, {"const"}) : t \in {u \in DT(1) : ~IsFn(u)}}
 
 (* ---------------------------------------------------------------------- *)
 (* number of atomic differences between two types of the same skeleton; 99 = different skeleton *)
